@@ -553,22 +553,40 @@ def r4_grouping(ctx) -> None:
         else:
             r.ok("C01.R4", q, f"interpreted on {ncases} cases: direct conversion iff compare_precedence(cond, child), group otherwise; every child of cond.args in order; None/deferred children left out", f.loc)
     nt = prog.func(TQ + ".convert_condition_not")
-    gcalls = [c for c in walk_no_nested(nt.node) if isinstance(c, ast.Call) and call_name(c) == "self.convert_condition_group"]
-    dcalls = [c for c in walk_no_nested(nt.node) if isinstance(c, ast.Call) and call_name(c) == "self.convert_condition"]
-    if len(gcalls) == 1 and len(dcalls) == 1:
-        gt = [unparse(t) for t, p in guards_at(prog, nt, gcalls[0]) if p and not isinstance(t, (ast.For, ast.match_case))]
-        dt = [unparse(t) for t, p in guards_at(prog, nt, dcalls[0]) if not p and not isinstance(t, (ast.For, ast.match_case))]
-        want = ["arg.__class__ in self.precedence or not self.compare_precedence(cond, arg)"]
-        loc = f"{nt.module.relpath}:{gcalls[0].lineno}"
-        if any(w in gt for w in want) and any(w in dt for w in want):
-            r.ok("C01.R4", nt.qual, "NOT groups operator children and children that bind looser than NOT; others are converted directly", loc)
-        elif "arg.__class__ in self.precedence" in gt:
-            r.violation("C01.R4", nt.qual, "if arg.__class__ in self.precedence: group",
-                        "NOT only groups AND/OR nodes: a child whose value converts into an OR of alternatives (expansion values) is negated as 'not a or b or c'", loc)
-        else:
-            r.violation("C01.R4", nt.qual, f"group under {gt}", f"expected the grouping test {want[0]}", loc)
+    # NOT: interpreted (sa.tabulate, Proxy) on arguments of operator classes and on leaves, with a stand-in precedence answer:
+    # the argument goes through the group function exactly if it is an operator or binds looser than NOT
+    class _NLeaf:
+        pass
+    class ConditionNOT: pass
+    class ConditionAND: pass
+    class ConditionOR: pass
+    bad_n = []
+    for arg_cls, is_op in ((ConditionAND, True), (ConditionOR, True), (ConditionNOT, True), (_NLeaf, False)):
+        for prec_ok in (True, False):
+            calls_n: list = []
+            argn = arg_cls.__new__(arg_cls)
+            argn.__dict__.update(args=[], parent=None)
+            condn = ConditionNOT.__new__(ConditionNOT)
+            condn.__dict__.update(args=[argn], parent=None)
+            envn = {"ConditionAND": ConditionAND, "ConditionOR": ConditionOR, "ConditionNOT": ConditionNOT, "DeferredQueryExpression": DeferredQueryExpression}
+            men = Proxy(prog, TQ, envn, {"precedence": (ConditionNOT, ConditionAND, ConditionOR), "not_token": "NOT", "token_separator": " ", "convert_not_as_not_eq": False,
+                                         "compare_precedence": lambda o_, i_, _p=prec_ok: _p,
+                                         "convert_condition": lambda c_, s_: (calls_n.append("direct"), "ARG")[1],
+                                         "convert_condition_group": lambda c_, s_: (calls_n.append("group"), "(ARG)")[1]}, interp_kwargs={"max_steps": 3000, "behaviours": (TypeError, NotImplementedError)})
+            try:
+                gotn = call_method(prog, TQ, "convert_condition_not", men, envn, condn, object(), interp_kwargs={"max_steps": 3000, "behaviours": (TypeError, NotImplementedError)})
+            except _Raised as ex:
+                gotn = f"raises {ex}"
+            want_group = is_op or not prec_ok
+            if calls_n != (["group"] if want_group else ["direct"]) or gotn != ("NOT (ARG)" if want_group else "NOT ARG"):
+                bad_n.append(f"argument {arg_cls.__name__}{' (an operator)' if is_op else ''}, compare_precedence → {prec_ok}: {calls_n} → {gotn!r}")
+    if not bad_n:
+        r.ok("C01.R4", nt.qual, "NOT groups operator children and children that bind looser than NOT; others are converted directly (interpreted on 8 cases)", nt.loc)
+    elif all("an operator" not in b_ for b_ in bad_n):
+        r.violation("C01.R4", nt.qual, "if arg.__class__ in self.precedence: group",
+                    f"NOT only groups AND/OR nodes: a child whose value converts into an OR of alternatives (expansion values) is negated as 'not a or b or c' — {bad_n[0]}", nt.loc)
     else:
-        r.violation("C01.R4", nt.qual, "convert_condition_not", "expected one grouped and one direct conversion of the argument", nt.loc)
+        r.violation("C01.R4", nt.qual, "group under arg.__class__ in self.precedence or not self.compare_precedence(cond, arg)", f"expected the grouping test: {bad_n[0]}", nt.loc)
     gp = prog.func(TQ + ".convert_condition_group")
     # the group function, interpreted (sa.tabulate) on converted texts: every text gets the group, also one that already
     # starts and ends with the group delimiters — "(a or b) and (c or d)" is not a group
@@ -1029,7 +1047,9 @@ def r10_tokens(ctx) -> None:
         else:
             r.violation("C01.R10", f.qual, f"reads {sorted(a for a in attrs if 'token' in a or 'empty' in a)}", f"{fn} must join with {tok} and return {empty} for no arguments, never the {other}/not tokens", f.loc)
     nt = prog.func(TQ + ".convert_condition_not")
-    attrs = {n.attr for n in walk_no_nested(nt.node) if isinstance(n, ast.Attribute) and unparse(n.value) == "self" and n.attr.endswith("_token")}
+    nt_funcs = [nt] + [hm for c0 in walk_no_nested(nt.node) if isinstance(c0, ast.Call) and call_name(c0).startswith("self._") and call_name(c0).count(".") == 1
+                       and (hm := prog.lookup_method(TQ, call_name(c0)[5:])) is not None]
+    attrs = {n.attr for f_ in nt_funcs for n in walk_no_nested(f_.node) if isinstance(n, ast.Attribute) and unparse(n.value) == "self" and n.attr.endswith("_token")} - {"token_separator"}
     if attrs == {"not_token"}:
         r.ok("C01.R10", nt.qual, "reads not_token only", nt.loc)
     else:
@@ -1058,20 +1078,32 @@ def r11_linking(ctx) -> None:
     r.rule("C01.R11", "linking constants: a detection given as map links its items with AND, a list with OR; a value list links with OR unless 'all' set AND; 0 values → null, 1 → bare expression, n → value_linking(...); negation wraps the item in exactly one ConditionNOT whose parent links are set both ways")
     D = "sigma.rule.detection"
     pi = prog.func(D + ".SigmaDetection.__post_init__")
-    src = unparse(pi.node)
-    table = {}
-    for n in walk_no_nested(pi.node):
-        if isinstance(n, ast.Assign) and unparse(n.targets[0]) == "self.item_linking":
-            gs = atomic_guards(guards_at(prog, pi, n))
-            table[unparse(n.value)] = gs
-    if set(table) == {"ConditionAND", "ConditionOR"}:
-        and_g = [g for g, p in table["ConditionAND"] if p]
-        if any("SigmaDetectionItem" in g for g in and_g):
-            r.ok("C01.R11", pi.qual, "item_linking = AND iff detection items are members (map), else OR (list)", pi.loc)
-        else:
-            r.violation("C01.R11", pi.qual, f"item_linking table {table}", "AND linking must be chosen exactly for detections made of detection items (maps)", pi.loc)
+    # __post_init__ interpreted (sa.tabulate, Proxy) on member lists of detection items, nested detections and both
+    from ..tabulate import Proxy as _Pl, call_method as _cml, Raised as _Rl
+    class SigmaDetectionItem: pass
+    class SigmaDetection: pass
+    class _ItemSub(SigmaDetectionItem): pass
+    class ConditionAND: pass
+    class ConditionOR: pass
+    class SigmaDetectionError(Exception):
+        def __init__(self, *a, **k): super().__init__(*a)
+    import types as _typesl
+    envl = {"SigmaDetectionItem": SigmaDetectionItem, "SigmaDetection": SigmaDetection, "ConditionAND": ConditionAND, "ConditionOR": ConditionOR,
+            "sigma_exceptions": _typesl.SimpleNamespace(SigmaDetectionError=SigmaDetectionError), "SigmaDetectionError": SigmaDetectionError}
+    outs_l = {}
+    for nm_l, members, given in (("items (a map)", [SigmaDetectionItem(), SigmaDetectionItem()], None), ("one item", [SigmaDetectionItem()], None), ("nested detections (a list)", [SigmaDetection(), SigmaDetection()], None),
+                                 ("items and a nested detection", [SigmaDetection(), SigmaDetectionItem()], None), ("linking given", [SigmaDetectionItem()], ConditionOR), ("no members", [], None)):
+        mel = _Pl(prog, D + ".SigmaDetection", envl, {"detection_items": members, "item_linking": given, "source": None}, interp_kwargs={"max_steps": 3000, "behaviours": (SigmaDetectionError,)})
+        try:
+            _cml(prog, D + ".SigmaDetection", "__post_init__", mel, envl, interp_kwargs={"max_steps": 3000, "behaviours": (SigmaDetectionError,)})
+            outs_l[nm_l] = getattr(mel.item_linking, "__name__", repr(mel.item_linking))
+        except _Rl as ex:
+            outs_l[nm_l] = "error" if "SigmaDetectionError" in str(ex) else f"raises {ex}"
+    want_l = {"items (a map)": "ConditionAND", "one item": "ConditionAND", "nested detections (a list)": "ConditionOR", "items and a nested detection": "ConditionAND", "linking given": "ConditionOR", "no members": "error"}
+    if outs_l == want_l:
+        r.ok("C01.R11", pi.qual, "item_linking = AND iff detection items are members (map), else OR (list); a given linking is kept; an empty detection is refused (interpreted on 6 member lists)", pi.loc)
     else:
-        r.violation("C01.R11", pi.qual, f"item_linking ∈ {sorted(table)}", "item linking must be ConditionAND for maps and ConditionOR for lists", pi.loc)
+        r.violation("C01.R11", pi.qual, f"item_linking table { {k_: v_ for k_, v_ in outs_l.items() if want_l[k_] != v_} }", f"item linking must be ConditionAND for maps and ConditionOR for lists: expected { {k_: want_l[k_] for k_ in outs_l if want_l[k_] != outs_l[k_]} }", pi.loc)
     dc = prog.cls(D + ".SigmaDetectionItem")
     vl = [s for s in dc.node.body if isinstance(s, ast.AnnAssign) and unparse(s.target) == "value_linking"]
     if vl and unparse(vl[0].value) == "ConditionOR":
@@ -1250,6 +1282,15 @@ def r14_parent_links_per_reference(ctx) -> None:
                 return "instance of a class object (cast(...)(…))"
             if isinstance(e.func, ast.Attribute) and e.func.attr in FRESH_ATTR_CALLS:
                 return f"instance of self.{e.func.attr}"
+            if isinstance(e.func, ast.Name) and depth < 3:
+                # a local that holds the class object: linking = cast(…, self.item_linking) / = self.value_linking
+                cdefs = [st.value for st in walk_no_nested(fi.node) if isinstance(st, ast.Assign) and len(st.targets) == 1 and isinstance(st.targets[0], ast.Name) and st.targets[0].id == e.func.id]
+                def class_object(v: ast.AST) -> bool:
+                    if isinstance(v, ast.Call) and call_name(v) == "cast" and len(v.args) == 2:
+                        return class_object(v.args[1])
+                    return isinstance(v, ast.Attribute) and v.attr in FRESH_ATTR_CALLS and unparse(v.value) == "self"
+                if len(cdefs) == 1 and class_object(cdefs[0]) and e.func.id not in fi.params():
+                    return f"instance of the class object held in {e.func.id}"
             q = prog.resolve_expr(fi.module, e.func)
             if q and q in prog.classes:
                 return f"constructor {q.rsplit('.', 1)[-1]}(…)"
